@@ -34,6 +34,9 @@ func c11KFStep(p []c10Decl, d *c10Decl, rp c10Impl) []string {
 	if c10ZombieRisk(all) {
 		kf = append(kf, "C11-null-container-resurrected")
 	}
+	if c10KeyedNull(all) {
+		kf = append(kf, "C11-edge-attribute-null-deletes-edge")
+	}
 	indexed := (d.Kind == c10Edge && d.Idx != nil) || d.Kind == c10EdgeAttr
 	if indexed && c10EdgeNullBefore(p, d) {
 		kf = append(kf, "C11-ir-index-after-delete")
